@@ -495,6 +495,15 @@ type bdiff struct {
 	changed        map[string][]string // marker -> changed aspects: "@id" "@absid" "@parent" "@src" "@dst" "@index" "@arrows" or a cell name
 }
 
+func (d *bdiff) keys() []string {
+	ks := make([]string, 0, len(d.changed))
+	for k := range d.changed {
+		ks = append(ks, k)
+	}
+	sort.Strings(ks)
+	return ks
+}
+
 func (d *bdiff) empty() bool { return len(d.added) == 0 && len(d.removed) == 0 && len(d.changed) == 0 }
 
 func (d *bdiff) String() string {
@@ -634,7 +643,7 @@ type call struct {
 	tInherited bool // the target is defined by a board the addressed board starts from
 	tImpValue  bool // the target is declared as `key: @file`
 	dImpValue  bool // the destination container / a connection end is declared as `key: @file`
-	tDotted    bool // the target or something below it is written with dotted keys (outside connections) or `_` references
+	tDotted    bool // the target, something below or something above it is written with dotted keys (outside connections) or `_` references
 	srcHasNull bool // the source contains `key: null` statements (left by deletions of imported / inherited elements)
 }
 
@@ -996,8 +1005,8 @@ func (x *exec) setTarget(c *call, st *bstate, e *el) {
 	if !e.edge {
 		for _, m := range st.order {
 			o := st.els[m]
-			if !o.edge && o.dotted && st.under(m, e.m) {
-				c.tDotted = true
+			if !o.edge && o.dotted && (st.under(m, e.m) || st.under(e.m, m)) {
+				c.tDotted = true // below or above the target
 			}
 			if o.foreign && (!o.edge && st.under(m, e.m) || o.edge && (st.under(o.src, e.m) || st.under(o.dst, e.m))) {
 				c.tForeign = true
